@@ -116,7 +116,7 @@ def q_term(t):
     if t[0] == "v":
         return "TV (%s)" % q_var(t[1])
     if t[0] == "c":
-        return "TC (%d)" % t[1]
+        return "TC (%d)%%Z" % t[1]
     return "TF %d %s" % (dl.FUNS[t[1]][0], q_list(q_var(x) for x in t[2]))
 
 
